@@ -406,6 +406,7 @@ def getitem(interp, st, base, idx):
     offset = a.offset
     shape, strides = [], []
     sym_axes = []
+    oob = False
     for ax, ix in enumerate(idx):
         n = a.shape[ax]
         if isinstance(ix, In.SliceV):
@@ -418,11 +419,17 @@ def getitem(interp, st, base, idx):
         else:
             j = _norm_index(interp, st, ix, n)
             if j is None:
+                oob = True
                 j = 0
             if isinstance(j, int):
                 offset += j * a.strides[ax]
             else:
                 sym_axes.append((ax, j, n))
+    if oob:
+        # concretely out of bounds: the failed obligation is recorded; the value read is arbitrary
+        if not shape:
+            return interp.A.fresh("oob_read", "real") if not interp.concrete else 0
+        return interp.new_array(st, shape, a.dtype, fill=0)
     if not sym_axes:
         view = Arr(a.bufid, offset, shape, strides, a.dtype, a.readonly)
         if not shape:
